@@ -121,7 +121,7 @@ def run(tier):
             rep.add(Violation(key, f"[send_answer racing with {v}, bound {bound}] choices {choices}: {detail}", {"sched": v, "choices": choices}))
         rep.sample({"schedule_exploration": f"send_answer in its own thread vs the I/O thread handling {v}", "preemption_bound": bound,
                     "executions": r["executions"], "distinct_outcomes": len(r["outcomes"]), "branching_points": r["max_points"]})
-    depth = 6 if tier == "thorough" else 4
+    depth = 6 if tier == "thorough" else 5
     tot = monitors.run_models(rep, models(tier), depth, dedup_depth_plain=depth - 2, time_cap=1500 if tier == "thorough" else 110)
     rep.cov.update({"states": tot["states"], "transitions": tot["transitions"], "traces_validated_against_impl": tot["transitions"] + tot["plain_transitions"] + sched,
                     "max_depth": tot["max_depth"], "states_without_dedup": tot["plain_states"], "schedules": sched,
